@@ -139,6 +139,10 @@ func genEvent(tp *sim.Tape, m *Model, f *Fixture, focus string) Ev {
 		if e.Kind == EvPartial {
 			e.Batch = []int{0, 0, 1, 1, 2}[tp.Choose(5, "batchRef")]
 		}
+		if e.Kind == EvErrSign {
+			// current batch, an older one, one never proposed, or no batch id at all
+			e.Batch = []int{0, 0, 1, 1, 2, -1}[tp.Choose(6, "errBatchRef")]
+		}
 	}
 	if e.Kind != EvInit && e.Kind != EvStart && tp.Choose(8, "late?") == 0 {
 		e.Late = true
